@@ -1,4 +1,5 @@
 import ChfVerif.Lemmas.BerSafe
+import ChfVerif.Gen.AsnGlobals
 /-
   C16 — the BER decoder is safe on arbitrary bytes: an error or a value, never a panic.
 
@@ -62,5 +63,37 @@ theorem C16_wrong_tag (t : Ty) (p : Params) (b : Bytes) (tal : Tal)
   split
   · rfl
   · simp [hbad]
+
+/-! ### every call, in every history and under every interleaving
+
+  `C16` is about a function of (type, parameters, octets).  The Go decoder is that function as long as no call reads
+  or leaves anything in a package-level variable that an earlier or a concurrent call wrote (a cache keyed by type, say:
+  besides changing answers, an unsynchronised one aborts the process — neither a value nor an error).  The facts are
+  regenerated from the source (Gen/AsnGlobals.lean); the run-time side is the `V` operation of the ber stream (several
+  goroutines decoding at once into types the process has not seen, twice). -/
+
+open Chf.CodecState in
+theorem C16_codec_globals_frozen : allFrozen Gen.asnGlobals = true := by decide
+
+open Chf.CodecState in
+/-- any procedure over the package-level store that respects the regenerated facts and answers single calls from the
+    initial store like the model returns a value or an error — never a panic — after ANY history of earlier calls, and
+    answers a repeated call as it answered it the first time -/
+theorem C16_history {V : Type} (impl : Store V → (Ty × Params × Bytes) → Res Val × Store V)
+    (hr : Respects Gen.asnGlobals impl) (g : Store V) (hcorr : ∀ i, (impl g i).1 = unmarshal i.1 i.2.1 i.2.2)
+    (hist : List (Ty × Params × Bytes)) (t : Ty) (p : Params) (b : Bytes) :
+    (impl (after impl g hist) (t, p, b)).1 ≠ .panic ∧
+    (impl (after impl g hist) (t, p, b)).1 = (impl g (t, p, b)).1 := by
+  rw [history_independent C16_codec_globals_frozen hr g hist]
+  exact ⟨by rw [hcorr]; exact C16 t p b, rfl⟩
+
+open Chf.CodecState in
+/-- goroutines: whatever the scheduler does, every goroutine ends where it ends when it runs alone, and the package-level
+    store is untouched — concurrent decodings answer what the same decodings answer one after the other -/
+theorem C16_schedule {V L : Type} (micro : Micro V L) (hr : RespectsMicro Gen.asnGlobals micro) (g : Store V)
+    (sched : List Nat) (ls : Nat → L) :
+    (runSched micro g ls sched).2 = g ∧
+    ∀ k, (runSched micro g ls sched).1 k = runAlone micro g (ls k) (sched.count k) :=
+  schedule_independent C16_codec_globals_frozen hr g sched ls
 
 end Chf.Props.C16
